@@ -42,3 +42,11 @@ def splitJudge (s : String) : String × String :=
   | [] => ("", "")
 
 end Driver
+
+namespace Driver
+/-- a protocol handler: command name, model answer, spec verdict on the implementation's answer -/
+structure Handler where
+  cmd : String
+  model : String → String
+  judge : String → String → String
+end Driver
